@@ -72,7 +72,8 @@ class Run:
         self.violations = []
         self.replayed = 0
         self.differential = {'scenarios': 0, 'agree': 0}
-        self.timeout_ms = 20000 if tier == 'quick' else 120000
+        # per-query cap; generous so that a loaded machine does not turn a decidable query into `unknown` (unknown is never a pass)
+        self.timeout_ms = int(os.environ.get('VERIF_QUERY_TIMEOUT_MS', 120000 if tier == 'quick' else 600000))
         z3.set_param('smt.random_seed', seed % (2**31))
         z3.set_param('sat.random_seed', seed % (2**31))
         self.cvc5_checked = 0
@@ -144,8 +145,19 @@ class Run:
         if r == z3.unsat:
             s.pop(); return True
         if r == z3.unknown:
-            self.inconclusive.append(f'solver unknown on "{name}" ({s.reason_unknown()})'); s.pop(); return False
-        m = s.model()
+            # one retry in a fresh solver with a different seed and four times the budget before giving up
+            s.pop()
+            s2 = z3.Solver(); s2.set('timeout', self.timeout_ms * 4); s2.set('random_seed', (self.seed + 7919) % (2**31))
+            for c in pc: s2.add(c)
+            s2.add(z3.Not(formula))
+            t1 = time.time(); r = s2.check(); self.solver_s += time.time() - t1
+            rec['result'] = str(r); rec['retried'] = True
+            if r == z3.unsat: return True
+            if r == z3.unknown:
+                self.inconclusive.append(f'solver unknown on "{name}" ({s2.reason_unknown()})'); return False
+            m = s2.model(); s = None
+        else:
+            m = s.model()
         cx = {'obligation': name, 'group': group or name, 'tainted': list(tainted or [])}
         if decode is not None:
             try: cx['scenario'] = decode(m)
@@ -154,7 +166,7 @@ class Run:
         else:
             cx['model'] = {str(d): str(m[d]) for d in m.decls() if d.arity() == 0}
         self.counterexamples.append(cx)
-        s.pop()
+        if s is not None: s.pop()
         return False
 
     def reach(self, name, pc, formula=None):
